@@ -95,13 +95,23 @@ class EventChecker:
                 k_hi = min(k_hi, s['count'] - 1)
             return set(range(k_lo, k_hi + 1)) if k_hi >= k_lo else set()
 
+        # the id field of an emsg box (and splice_event_id) has 32 bits: event k is carried as k mod 2**32.
+        # Observed ids are mapped back to the k nearest to the run
+        a0 = (run_start * ev_ts - s['start']) / s['interval']
+        k_ref = max(0, a0.numerator // a0.denominator)
+
+        def unwrap(i: int) -> int:
+            return i + ((k_ref - i + 2**31) // 2**32) * 2**32
+
         observed: list[tuple[int, int]] = []     # (id, segment index)
         for si, seg in enumerate(segs):
             for e in seg['emsg']:
                 if e['scheme_id_uri'] != scheme:
                     continue
-                observed.append((e['id'], si))
-                self.check_event(kind, s, version, e, seg, rep_ts, tol, replay, label)
+                if k_ref >= 2**32:
+                    self.res.count('events.ids_beyond_32_bits')
+                observed.append((unwrap(e['id']), si))
+                self.check_event(kind, s, version, dict(e, id=unwrap(e['id'])), seg, rep_ts, tol, replay, label)
         ids = [i for i, _ in observed]
         if not s['inband']:
             if ids:
@@ -179,7 +189,7 @@ class EventChecker:
         pt = s['start'] + k * s['interval']
         want_pts = (pt * MPEG_TIMEBASE // s['timescale']) & 0x1FFFFFFFF
         want_dur = s['duration'] * MPEG_TIMEBASE // s['timescale']
-        if si['splice_event_id'] != k:
+        if si['splice_event_id'] != k % 2**32:
             res.violation('scte35-event-id-differs', f'{label}: splice_event_id {si["splice_event_id"]} want {k}', replay)
         if si.get('pts') != want_pts:
             res.violation('scte35-pts-differs', f'{label}: event {k}: pts {si.get("pts")} want {want_pts}', replay)
@@ -252,11 +262,15 @@ def run_http(ctx: ShardCtx, res: ShardResult, env, checker: EventChecker) -> Non
             # the presentation clock is small so that schedules (start/count) fall inside the window
             elapsed = rng.choice([depth + 1, depth + rng.randrange(0, 200), rng.randrange(depth, 10 * depth + 100),
                                   # days of uptime: the 33 bit PTS of SCTE-35 wraps every 26.5 hours
-                                  95443 + rng.randrange(-30, 300), rng.randrange(2, 60) * 86400 + rng.randrange(86400)])
-            now = datetime.datetime(2024, 7, 1, 0, 0, 0, tzinfo=UTC) + datetime.timedelta(
+                                  95443 + rng.randrange(-30, 300), rng.randrange(2, 60) * 86400 + rng.randrange(86400),
+                                  # a stream that began decades ago (start=epoch): event numbers beyond 32 bits
+                                  rng.randrange(15, 55) * 365 * 86400 + rng.randrange(86400)])
+            t0 = datetime.datetime(2024, 7, 1, 0, 0, 0, tzinfo=UTC) if elapsed < 10 * 365 * 86400 else \
+                datetime.datetime(1970, 1, 1, tzinfo=UTC)
+            now = t0 + datetime.timedelta(
                 seconds=elapsed, microseconds=rng.choice([0, 1, 500000, rng.randrange(10**6)]))
             mp = dict(params)
-            mp.update({'start': '2024-07-01T00:00:00Z', 'depth': str(depth)})
+            mp.update({'start': t0.strftime('%Y-%m-%dT%H:%M:%SZ'), 'depth': str(depth)})
             if manifest == 'hand_made.mpd' and rng.random() < 0.5:
                 mp['timeline'] = '1'
             # shift the schedule near the window so that events are expected
@@ -295,6 +309,11 @@ def run_http(ctx: ShardCtx, res: ShardResult, env, checker: EventChecker) -> Non
                 ok = False
                 res.count('run.segment_refused')
                 res.count(f'run.segment_refused.{r.status_code}')
+                if r.status_code >= 500:
+                    info = env.rec.last_exception or {}
+                    res.violation('segment-with-events-answers-5xx',
+                                  f'{label}: {u} -> {r.status_code}: {info.get("repr", "")[:200]}', replay,
+                                  traceback=(info.get('traceback') or '')[-1200:])
                 if len(res.notes) < 3:
                     res.notes.append(f'segment refused: {r.status_code} {u} {r.data[:60]!r} exc={(env.rec.last_exception or {}).get("repr")}')
                 break
